@@ -27,7 +27,16 @@ const Rule = "cases = (tree kind bst|avl|rb, constructor arguments of EACH of th
 	"zig-zag or random order, then Select/Rank/Floor/Ceiling/Get/Range/RangeSize at every threshold rank and its neighbours, " +
 	"range results of threshold lengths, growth past and shrinking below the size with all kinds of delete, Height, and a second " +
 	"table with the same keys under another comparator for Equal (sizes <= 1025); (extreme) keys and values at MinInt, MaxInt, " +
-	"+-2^31, +-2^32, +-2^k+-1 under comparators that do not subtract. API use: slices returned by Range are either scribbled " +
+	"+-2^31, +-2^32, +-2^k+-1 under comparators that do not subtract; (far) comparators that DO subtract (a-b, 7*(a-b), b-a, 3*(b-a)) " +
+	"on keys 2^32 … 2^62 apart but within +-2^59 (+-2^61 for a-b, b-a), where no subtraction overflows and the order is still " +
+	"lawful, every query with bounds or ranks; half of the sweep cases spread their keys the same way (stride up to 2^5x); " +
+	"(size) every size from 0 to 200: load, battery, one delete of each kind; (randload) 300, 800, 1500, 2500, 5000 keys in " +
+	"RANDOM order, then random-order deletes, re-insertions, DeleteMin/DeleteMax, with Height, All and the traversals after " +
+	"each phase, plus oracle-only (NoModel) 5000-key loads whose whole listing is compared every 5 mutations (5 Red-Black, " +
+	"1 AVL, 1 BST; three times as many when thorough / searching / code changed). Type parameters: one case in five " +
+	"instantiates K with string (lexicographic strings.Compare or its reverse for asc/desc, otherwise the int order of what " +
+	"the strings stand for) and/or V with a struct holding a slice (field-wise equality), a []int (slices.Equal) or an any " +
+	"holding ints and strings; keys and values print as the ints they stand for. API use: slices returned by Range are either scribbled " +
 	"on and grown by the caller or kept and re-read after every later call (rangekeep); All() sequences are ranged over " +
 	"twice, nested in one another, pulled alternately by two iter.Pull2 with one abandoned half-way; tables returned by " +
 	"SelectMatch/PartitionMatch are mutated and the receiver re-examined and vice versa. Every result is judged by an " +
